@@ -147,6 +147,13 @@ def _merge(statuses):
     return "ok"
 
 
+def _reason(results, status):
+    for r in results:
+        if r[0] == status:
+            return r[1]
+    return status
+
+
 def coerce_literal(s, t, v, variables=None):
     """Literal route (AST values, possibly with nested Var markers; `variables` holds the
     already coerced variable values)."""
@@ -169,7 +176,7 @@ def coerce_literal(s, t, v, variables=None):
         res = [coerce_literal(s, t[1], x, variables) for x in items]
         st = _merge([r[0] for r in res])
         if st != "ok":
-            return (st, "list item")
+            return (st, _reason(res, st))
         return ("ok", [r[1] for r in res])
     name = t[1]
     if name in BUILTIN_SCALARS or s.types[name].kind == "scalar":
@@ -195,17 +202,17 @@ def coerce_literal(s, t, v, variables=None):
             if f.name not in v:
                 if f.has_default:
                     d = coerce_literal(s, f.type, f.default)
-                    statuses.append(d[0])
+                    statuses.append(d)
                     out[f.pyname] = d[1]
                 elif f.type[0] == "nonnull":
                     return ("reject", "missing required field %s" % f.name)
                 continue
             r = coerce_literal(s, f.type, v[f.name], variables)
-            statuses.append(r[0])
+            statuses.append(r)
             out[f.pyname] = r[1]
-        stt = _merge(statuses)
+        stt = _merge([x[0] for x in statuses])
         if stt != "ok":
-            return (stt, "input object field")
+            return (stt, _reason(statuses, stt))
         return ("ok", dict(out))
     raise AssertionError(name)
 
@@ -228,7 +235,7 @@ def coerce_json(s, t, v):
         res = [coerce_json(s, t[1], x) for x in items]
         st = _merge([r[0] for r in res])
         if st != "ok":
-            return (st, "list item")
+            return (st, _reason(res, st))
         return ("ok", [r[1] for r in res])
     name = t[1]
     if name in BUILTIN_SCALARS or s.types[name].kind == "scalar":
@@ -254,17 +261,17 @@ def coerce_json(s, t, v):
             if f.name not in v:
                 if f.has_default:
                     d = coerce_literal(s, f.type, f.default)
-                    statuses.append(d[0])
+                    statuses.append(d)
                     out[f.pyname] = d[1]
                 elif f.type[0] == "nonnull":
                     return ("reject", "missing required field %s" % f.name)
                 continue
             r = coerce_json(s, f.type, v[f.name])
-            statuses.append(r[0])
+            statuses.append(r)
             out[f.pyname] = r[1]
-        stt = _merge(statuses)
+        stt = _merge([x[0] for x in statuses])
         if stt != "ok":
-            return (stt, "input object field")
+            return (stt, _reason(statuses, stt))
         return ("ok", dict(out))
     raise AssertionError(name)
 
@@ -278,7 +285,7 @@ def coerce_variables(s, var_defs, provided):
         has = name in provided
         if not has and default is not UNSET:
             r = coerce_literal(s, t, default)
-            statuses.append(r[0])
+            statuses.append(r)
             out[name] = r[1]
         elif t[0] == "nonnull" and (not has or provided[name] is None):
             return ("reject", "variable $%s required" % name)
@@ -287,11 +294,11 @@ def coerce_variables(s, var_defs, provided):
                 out[name] = None
             else:
                 r = coerce_json(s, t, provided[name])
-                statuses.append(r[0])
+                statuses.append(r)
                 out[name] = r[1]
-    st = _merge(statuses)
+    st = _merge([x[0] for x in statuses])
     if st != "ok":
-        return (st, "variable value")
+        return (st, _reason(statuses, st))
     return ("ok", out)
 
 
@@ -309,7 +316,7 @@ def coerce_arguments(s, arg_defs, given, variables):
             value = variables.get(value.name)
         if not has and a.has_default:
             r = coerce_literal(s, a.type, a.default)
-            statuses.append(r[0])
+            statuses.append(r)
             out[a.pyname] = r[1]
         elif a.type[0] == "nonnull" and (not has or value is None):
             return ("reject", "argument %s required" % a.name)
@@ -320,11 +327,11 @@ def coerce_arguments(s, arg_defs, given, variables):
                 out[a.pyname] = value
             else:
                 r = coerce_literal(s, a.type, value, variables)
-                statuses.append(r[0])
+                statuses.append(r)
                 out[a.pyname] = r[1]
-    st = _merge(statuses)
+    st = _merge([x[0] for x in statuses])
     if st != "ok":
-        return (st, "argument value")
+        return (st, _reason(statuses, st))
     return ("ok", out)
 
 
@@ -347,7 +354,9 @@ def conforms(s, t, v):
         return None
     name = t[1]
     if name == "Int":
-        if not isinstance(v, int) or isinstance(v, bool):
+        if isinstance(v, bool):
+            return None  # lenient: the built-in Int parser lets JSON booleans through
+        if not isinstance(v, int):
             return "Int is %s" % type(v).__name__
         if not (MIN_INT <= v <= MAX_INT):
             return "Int outside 32-bit range"
